@@ -86,14 +86,19 @@ def case_mvn(case, res):
     r = max(1, r)
     K = gen_penalty(rng, m, r, style)
     var = float(np.exp(rng.uniform(np.log(0.03), np.log(30.0))))
+    if case["idx"] % 3 == 0:
+        # very small / very large variances: the rank is a property of the penalty, not of pen/var
+        var = float(np.exp(rng.uniform(np.log(1e-4), np.log(1e8))))
     P = K / var
     loc = rng.normal(size=m) * 2
     lamK = np.linalg.eigvalsh(K)
     logpdetK = float(np.sum(np.log(np.sort(lamK)[::-1][:r])))
     normP = float(np.linalg.norm(P, 2))
     normK = float(np.linalg.norm(K, 2))
-    auto_ok_P = x64 or (m * 2.0 ** -23 * normP < 1e-6 / 8 and np.sort(np.linalg.eigvalsh(P))[::-1][r - 1] > 1e-4)
-    auto_ok_K = x64 or (m * 2.0 ** -23 * normK < 1e-6 / 8 and np.sort(lamK)[::-1][r - 1] > 1e-4)
+    # auto-rank is meaningful only where the numerical rank is unambiguous at the class's absolute tolerance 1e-6:
+    # smallest non-zero eigenvalue well above it, eigenvalue noise well below it
+    auto_ok_P = (x64 or m * 2.0 ** -23 * normP < 1e-6 / 8) and np.sort(np.linalg.eigvalsh(P))[::-1][r - 1] > 1e-4
+    auto_ok_K = (x64 or m * 2.0 ** -23 * normK < 1e-6 / 8) and np.sort(lamK)[::-1][r - 1] > 1e-4
     tol = (lambda lp: 1e-9 * (1 + abs(lp))) if x64 else (lambda lp: 2e-4 * (1 + abs(lp)))
     w = {"m": m, "rank": r, "style": style, "var": var, "x64": x64}
     _, Qr, lam_r, Qall = oracle_logprob(loc, loc, P, r)
@@ -145,7 +150,9 @@ def case_mvn(case, res):
     for n2 in names[1:]:
         res.mon("mvn_constructors_agree")
         a, b = np.asarray(vals[names[0]]), np.asarray(vals[n2])
-        if len(a) == len(b) == npts and np.any(np.abs(a - b) > 2 * np.array([tol(v) for v in a])):
+        # rounding of the precision matrix is amplified by |null-space shift|^2 * ||P|| (as in the oracle comparison)
+        amp = 1 + np.linalg.norm(shifts, axis=1) ** 2 * normP
+        if len(a) == len(b) == npts and np.any(np.abs(a - b) > 2 * np.array([tol(v) for v in a]) * amp):
             res.violation("mvn-constructors", f"{names[0]} and {n2} disagree: {a.tolist()} vs {b.tolist()}", w)
     # batch shapes: loc batch (3,) or (2,3), prec unbatched or batched
     bs = [(), (3,), (2, 3)][case["idx"] % 3]
